@@ -161,7 +161,7 @@ func (s *mq) Build(w *World) {
 	w.Prof.FaultPm = map[string]int{"send": []int{0, 50, 150, 400}[t.Draw(4)], "connect": []int{0, 0, 150, 400}[t.Draw(4)]}
 	w.Prof.FaultBudget = t.Draw(7)
 	// buggify: a random subset of the internal yield sites is active
-	for _, site := range []string{"messagequeue.afterReserve", "messagequeue.afterBuild", "messagequeue.doneArm", "messagequeue.beforeExit", "peermanager.beforeShutdown", "peermanager.getProcessMiss", "peermanager.gotProcess"} {
+	for _, site := range []string{"messagequeue.afterReserve", "messagequeue.afterRelease", "messagequeue.afterBuild", "messagequeue.doneArm", "messagequeue.beforeExit", "peermanager.beforeShutdown", "peermanager.getProcessMiss", "peermanager.gotProcess"} {
 		if t.Chance(350) {
 			w.Yields[site] = true
 		}
